@@ -82,6 +82,7 @@ type R struct {
 	Counters    map[string]int64   `json:"counters"`
 	Exhaustive  bool               `json:"exhaustive"`
 	Notes       []string           `json:"notes"`
+	KnownHits   map[int]int64      `json:"known_hits"`
 
 	keyset  map[uint64]struct{}
 	curFam  string
@@ -90,11 +91,12 @@ type R struct {
 	prop    string
 	vioCap  int
 	vioSeen map[string]int
+	matcher func(v *Violation) int // index into known findings or -1
 }
 
 func newR(prop string) *R {
 	return &R{Outcomes: map[string]int64{}, Maxima: map[string]float64{}, Counters: map[string]int64{},
-		keyset: map[uint64]struct{}{}, prop: prop, vioCap: 3000, vioSeen: map[string]int{}, Exhaustive: true}
+		keyset: map[uint64]struct{}{}, KnownHits: map[int]int64{}, prop: prop, vioCap: 3000, vioSeen: map[string]int{}, Exhaustive: true}
 }
 
 // NewR returns a standalone accumulator (used by tests of the harness itself).
@@ -139,26 +141,31 @@ func (r *R) Sample(s string) {
 
 // Violate records a violation of the current case. class names the clause that failed.
 func (r *R) Violate(class, detail string) {
-	r.NViolations++
-	// keep at most a few per class and per worker so one root cause cannot flood the output,
-	// but always keep the case strings (needed for known-finding matching) up to the cap
-	if len(r.Violations) >= r.vioCap {
-		return
-	}
 	c := ""
 	if r.curDesc != nil {
 		c = r.curDesc(r.curIdx)
 	}
-	r.Violations = append(r.Violations, Violation{Property: r.prop, Family: r.curFam, Index: r.curIdx, Class: class, Case: c, Detail: detail})
+	r.record(Violation{Property: r.prop, Family: r.curFam, Index: r.curIdx, Class: class, Case: c, Detail: detail})
 }
 
 // ViolateCase is Violate for Custom searches that describe the case themselves.
 func (r *R) ViolateCase(fam, class, c, detail string) {
+	r.record(Violation{Property: r.prop, Family: fam, Index: -1, Class: class, Case: c, Detail: detail})
+}
+
+// record matches the violation against the known findings right away (so that the capture cap
+// can never hide an unlisted violation behind listed ones) and keeps unlisted ones up to the cap.
+func (r *R) record(v Violation) {
 	r.NViolations++
-	if len(r.Violations) >= r.vioCap {
-		return
+	if r.matcher != nil {
+		if fi := r.matcher(&v); fi >= 0 {
+			r.KnownHits[fi]++
+			return
+		}
 	}
-	r.Violations = append(r.Violations, Violation{Property: r.prop, Family: fam, Index: -1, Class: class, Case: c, Detail: detail})
+	if len(r.Violations) < r.vioCap {
+		r.Violations = append(r.Violations, v)
+	}
 }
 
 // SetFamily sets the family label used for keys (Custom searches).
@@ -202,6 +209,7 @@ func trimStack(b []byte) string {
 // shard==0) and writes its R as JSON to out.
 func Worker(p *Property, tier string, shard, n int, out string, deadline time.Time, hangLimit time.Duration) {
 	r := newR(p.ID)
+	r.matcher = Matcher(p)
 	write := func() {
 		r.finish()
 		b, _ := json.Marshal(r)
